@@ -402,7 +402,32 @@ def ledgers(ctx, n):
             _fail(ctx, sig, what, {'kind': 'layout', 'lay': None, 'text': text, 'sig': sig})
 
 
+def _copy_census(ctx):
+    """"At all times": a deep copy of a document (or of one directive) whose comments are partly unowned carries the
+    same ownership and flags (the copy is a document of its own)."""
+    import copy
+    import claimprobes
+    texts = list(claimprobes.TEXTS) + list(claimprobes.HANDOVER_TEXTS) + ['; a\n\n2000-01-01 open Assets:A\n; b\n\n; c\n']
+    for text in texts:
+        for auto in (False, True):
+            f = P().parse(text, models.File, auto_claim_comments=auto)
+            nodes = [f] + [d for d in f.raw_directives_with_comments if not isinstance(d, models.BlockComment)]
+            for n in nodes:
+                c = copy.deepcopy(n)
+                ctx.case(('copy-census', auto, type(n).__name__, text[:16]))
+                flags_src = [t.claimed for t in n.tokens if isinstance(t, models.BlockComment)]
+                flags_cpy = [t.claimed for t in c.tokens if isinstance(t, models.BlockComment)]
+                bad = [('copy:' + s_, d) for s_, d in commentsx.check_census(c)] if isinstance(n, models.File) else []
+                if flags_src != flags_cpy:
+                    bad.append(('copy:claimed-flags-differ', f'deep copy of {type(n).__name__} has claimed flags {flags_cpy}, original {flags_src}'))
+                if bad:
+                    ctx.oracle_fail('C14:' + bad[0][0], bad[0][1], {'mode': 'copy-census', 'text': text, 'auto': auto})
+
+
 def run(ctx):
+    import claimprobes
+    claimprobes.run_handover(ctx, ['census'])
+    _copy_census(ctx)
     tr = commentsx.Tracer(limit=200, sample=1.0, rng=ctx.rng)
     with tr:
         scripted(ctx)
